@@ -1307,7 +1307,7 @@ fn main() {
     // ---- the enumerated family "generalisation under a binder" (c02/genbind.rs): all members in
     // the thorough tier, one in `stride` (chosen by a hash of index and seed) in the quick tier
     let fam = genbind::family();
-    let stride = if thorough { 1 } else { std::env::var("C02_GENBIND_STRIDE").ok().and_then(|x| x.parse().ok()).unwrap_or(9usize) };
+    let stride = if thorough { 1 } else { std::env::var("C02_GENBIND_STRIDE").ok().and_then(|x| x.parse().ok()).unwrap_or(10usize) };
     out.add("plan:genbind-family-size", fam.len() as u64);
     out.add("plan:genbind-stride", stride as u64);
     for (i, m) in fam.into_iter().enumerate() {
